@@ -134,35 +134,70 @@ class _Subst(ast.NodeTransformer):
         return ast.Lambda(args=n.args, body=inner.visit(n.body))
 
 
+def _clear_between(cfg: CFG, d: Node, node: Node, name: str, operand: str) -> bool:
+    """No definition of `operand` can execute between definition d (of `name`) and `node` on a path
+    along which d still reaches node (i.e. without passing another definition of `name`)."""
+    name_killers = [n for n in cfg.nodes if n is not d and any(c == name and not w for (c, w) in cfg.defs_of(n))]
+    op_defs = [n for n in cfg.nodes if n is not d and any(c == operand for (c, w) in cfg.defs_of(n))]
+    if not op_defs:
+        return True
+    name_killers = name_killers + [d]
+    fwd = cfg.reachable_from(d, blocked=name_killers)
+    for k in op_defs:
+        if id(k) not in fwd or (id(k) in set(id(x) for x in name_killers)):
+            continue
+        if k is node:
+            continue
+        r = cfg.reachable_from(k, blocked=name_killers)
+        if id(node) in r:
+            return False
+    return True
+
+
 def expand(cfg: CFG, node: Node, expr, depth=6, stop=()):
-    """Substitute local names in `expr` (as seen at CFG node `node`) by their defining
-    expression when the definition is unique and its operands are unchanged between the
-    definition and `node`.  Used to compare values independently of temporaries."""
+    """Substitute local names in `expr` (as seen at CFG node `node`) by their defining expression.
+    A name is substituted when all its reaching definitions assign the same expression (modulo
+    commutativity) and no operand of that expression can change between the definition and `node`.
+    An operand that *is* redefined in between but was a plain parameter at the definition is
+    renamed `<name>__in` (the value on entry).  Used to compare values independently of temporaries."""
     import copy
     if depth <= 0:
         return expr
     mapping = {}
     for nm in sorted({n.id for n in ast.walk(expr) if isinstance(n, ast.Name) and isinstance(n.ctx, ast.Load)}):
-        if nm in stop:
+        if nm in stop or nm.endswith("__in"):
             continue
-        d = single_def(cfg, node, nm)
-        if d is None or d.kind != "stmt":
+        ds = cfg.reaching(node, nm)
+        if not ds or any(d.kind != "stmt" for d in ds):
             continue
-        v = def_value(d, nm)
-        if v is None:
+        vals = [def_value(d, nm) for d in ds]
+        if any(v is None for v in vals):
             continue
-        # operands of v must have the same reaching defs at d and at node
+        if len({canon(v) for v in vals}) != 1:
+            continue
         ok = True
-        for w in ast.walk(v):
-            if isinstance(w, ast.Name) and isinstance(w.ctx, ast.Load):
-                rd = [x.idx for x in cfg.reaching(d, w.id)]
-                rn = [x.idx for x in cfg.reaching(node, w.id)]
-                if rd != rn:
+        ren = {}
+        for d, v in zip(ds, vals):
+            for w in {x.id for x in ast.walk(v) if isinstance(x, ast.Name) and isinstance(x.ctx, ast.Load)}:
+                if d is node:
                     ok = False
                     break
+                if not _clear_between(cfg, d, node, nm, w):
+                    # operand changes after the definition: usable only if it was the entry value there
+                    if len(ds) == 1 and [x for x in cfg.reaching(d, w)] == [cfg.entry]:
+                        ren[w] = w + "__in"
+                    else:
+                        ok = False
+                        break
+            if not ok:
+                break
         if not ok:
             continue
-        mapping[nm] = expand(cfg, d, v, depth - 1, stop)
+        d0, v0 = ds[0], vals[0]
+        v1 = expand(cfg, d0, v0, depth - 1, stop) if len(ds) == 1 else v0
+        if ren:
+            v1 = ast.fix_missing_locations(_Subst({k: ast.Name(id=v, ctx=ast.Load()) for k, v in ren.items()}).visit(copy.deepcopy(v1)))
+        mapping[nm] = v1
     if not mapping:
         return expr
     return ast.fix_missing_locations(_Subst(mapping).visit(copy.deepcopy(expr)))
@@ -233,3 +268,80 @@ def contains_call(expr, name_pred):
 
 def src(e):
     return norm_src(e) if e is not None else "<none>"
+
+
+# ----------------------------------------------------------------- commutative canonical text
+
+def canon(e) -> str:
+    """Canonical text modulo commutativity/associativity of + and * (and `a - b` = `a + (-b)`),
+    `np.dot(a,b)`/`a@b` for vectors kept ordered (matrix products do not commute)."""
+    if isinstance(e, str):
+        e = ast.parse(e, mode="eval").body
+    if isinstance(e, ast.BinOp) and isinstance(e.op, (ast.Add, ast.Sub)):
+        terms = []
+
+        def flat(x, sign):
+            if isinstance(x, ast.BinOp) and isinstance(x.op, ast.Add):
+                flat(x.left, sign)
+                flat(x.right, sign)
+            elif isinstance(x, ast.BinOp) and isinstance(x.op, ast.Sub):
+                flat(x.left, sign)
+                flat(x.right, -sign)
+            elif isinstance(x, ast.UnaryOp) and isinstance(x.op, ast.USub):
+                flat(x.operand, -sign)
+            else:
+                terms.append(("-" if sign < 0 else "+") + canon(x))
+        flat(e, 1)
+        return "(" + " ".join(sorted(terms)) + ")"
+    if isinstance(e, ast.BinOp) and isinstance(e.op, ast.Mult):
+        fs = []
+
+        def flatm(x):
+            if isinstance(x, ast.BinOp) and isinstance(x.op, ast.Mult):
+                flatm(x.left)
+                flatm(x.right)
+            else:
+                fs.append(canon(x))
+        flatm(e)
+        return "(" + "*".join(sorted(fs)) + ")"
+    if isinstance(e, ast.BinOp):
+        op = {ast.Div: "/", ast.Pow: "**", ast.MatMult: "@", ast.Mod: "%", ast.FloorDiv: "//"}.get(type(e.op), "?")
+        return f"({canon(e.left)}{op}{canon(e.right)})"
+    if isinstance(e, ast.UnaryOp) and isinstance(e.op, ast.USub):
+        if isinstance(e.operand, ast.Constant) and isinstance(e.operand.value, (int, float)):
+            return repr(-e.operand.value)
+        return "(-" + canon(e.operand) + ")"
+    if isinstance(e, ast.UnaryOp) and isinstance(e.op, ast.Not):
+        return "(not " + canon(e.operand) + ")"
+    if isinstance(e, ast.Call):
+        args = [canon(a) for a in e.args] + [f"{k.arg}={canon(k.value)}" for k in e.keywords]
+        return f"{canon(e.func)}({','.join(args)})"
+    if isinstance(e, ast.Attribute):
+        return canon(e.value) + "." + e.attr
+    if isinstance(e, ast.Subscript):
+        return canon(e.value) + "[" + canon(e.slice) + "]"
+    if isinstance(e, ast.Tuple):
+        return "(" + ",".join(canon(x) for x in e.elts) + ",)"
+    if isinstance(e, ast.Compare):
+        s = canon(e.left)
+        for op, c in zip(e.ops, e.comparators):
+            s += " " + type(op).__name__ + " " + canon(c)
+        return "(" + s + ")"
+    if isinstance(e, ast.BoolOp):
+        opn = " and " if isinstance(e.op, ast.And) else " or "
+        return "(" + opn.join(canon(v) for v in e.values) + ")"
+    if isinstance(e, ast.Constant):
+        if isinstance(e.value, float) and e.value == int(e.value):
+            return repr(float(e.value))
+        return repr(e.value)
+    if isinstance(e, ast.Name):
+        return e.id
+    if isinstance(e, ast.Lambda):
+        return "lambda " + ",".join(a.arg for a in e.args.args) + ": " + canon(e.body)
+    if isinstance(e, ast.Slice):
+        return ":".join("" if x is None else canon(x) for x in (e.lower, e.upper, e.step))
+    return norm_src(e)
+
+
+def same(e1, e2) -> bool:
+    return canon(e1) == canon(e2)
